@@ -87,7 +87,7 @@ def strip_targs(q):
         ch = q[i]
         if ch == '<':
             # operator< / operator<< / operator<=
-            if depth == 0 and q[:i].endswith('operator'):
+            if depth == 0 and (q[:i] == 'operator' or q[:i].endswith('::operator') or q[:i].endswith(' operator')):
                 out.append(ch)
             else:
                 depth += 1
